@@ -88,7 +88,7 @@ def run_c05(prop, tier):
 def run_c08(prop, tier):
     t0 = time.time()
     q = tier == "quick"
-    sigs = (["KQk", "KRk", "Kkq", "Kkr", "KPk", "KQkn;files=5", "KQkr;files=5", "KRkp;files=4", "KRkb;files=5", "KQkp;files=4"] if q else
+    sigs = (["KQk", "KRk", "Kkq", "Kkr", "KPk", "KQkn;files=4", "KQkr;files=4", "KRkp;files=4", "KRkb;files=4"] if q else
             ["KQk", "KRk", "Kkq", "Kkr", "KPk", "KQkn;files=6", "KQkr;files=6", "KQkb;files=6", "KRkn;files=6", "KRkb;files=6", "KRkp;files=5", "KQkp;files=5", "KBNk;files=5", "KRRk;files=5"])
     lists = []
     for s in sigs:
